@@ -22,8 +22,10 @@ import (
 	"encoding/hex"
 	"errors"
 	"io"
+	"maps"
 	"net/http"
 	"net/url"
+	"slices"
 	"strings"
 	"time"
 
@@ -369,9 +371,11 @@ func (h *genericContextualizer) calculateCacheKey(
 	hash.Write(ttlBytes)
 	hash.Write(sub.Hash())
 
-	for k, v := range values {
+	// the iteration order of a map is random. To have a stable cache key,
+	// the values are processed in the order of their names
+	for _, k := range slices.Sorted(maps.Keys(values)) {
 		hash.Write(stringx.ToBytes(k))
-		hash.Write(stringx.ToBytes(v))
+		hash.Write(stringx.ToBytes(values[k]))
 	}
 
 	return hex.EncodeToString(hash.Sum(nil))
